@@ -38,6 +38,8 @@ def check(repo, col, tier):
     _time(repo, col)
     _recs(repo, col)
     _sibling(repo, col)
+    from . import c06
+    c06.checkpoint_padding(repo, col, "R-C08-time")
 
 
 def _named_dict(node: ast.AST):
